@@ -325,8 +325,13 @@ def run_check(eng, prop, tier, seed, runs=None, jobs=None, out_dir=None):
         if is_hang:
             mplan, used = plan, 0
         else:
-            mplan, used = minimise(run_fn, lambda p: eng.shrink(prop, p), plan, sig,
-                                   budget, same=eng.same_signature)
+            try:
+                mplan, used = minimise(run_fn, lambda p: eng.shrink(prop, p), plan, sig,
+                                       budget, same=eng.same_signature)
+            except Exception:
+                # a fault in the shrinker must never lose the violation: report it unminimised
+                print('  (minimiser failed, reporting the unminimised plan)\n' + traceback.format_exc())
+                mplan, used = plan, 0
         out = guarded_run(eng, prop, mplan, keep_log=True)
         mviol = out['viol'] or viol
         path = os.path.join(rep_dir, f'{prop}-s{seed}-r{idx if idx >= 0 else "witness"}.json')
